@@ -159,7 +159,7 @@ KINDS = ["pointcloud", "polyline", "surface:tri", "surface:poly", "surface:any",
 def cases(seed, tier):
     rng = random.Random(seed * 104729 + 4)
     out = _anchors()
-    n = 800 if tier == "quick" else 40000
+    n = 800 if tier == "quick" else 50000
     sizes = [1, 2, 3] if tier == "quick" else [1, 2, 3, 4, 6, 8]
     for i in range(n):
         kind = KINDS[i % len(KINDS)]
